@@ -388,7 +388,7 @@ PIPELINE_ASSUME = [
 ]
 
 
-def pipeline_check(ctx, menu, rule, nontrivial, rand_n=0, extra_gen=(), only=None, extra_fails=(), extra_lines=0):
+def pipeline_check(ctx, menu, rule, nontrivial, rand_n=0, extra_gen=(), only=None, extra_fails=(), extra_lines=0, level="model_checking"):
     t = ctx.tier
     for cfg in PIPELINE_A[t]:
         vlib.tlc_check(ctx, "MC_Pipeline", cfg, workers=vlib.NCPU, timeout=2400)
@@ -414,7 +414,7 @@ def pipeline_check(ctx, menu, rule, nontrivial, rand_n=0, extra_gen=(), only=Non
         "samples": [{"layout": r["case"]["layout"], "beh": r["case"]["beh"], "history": res["cases"][r["cid"]]["steps"],
                      "last_obs": {k: r["obs"][k] for k in ("err", "died", "changes")}} for r in runs[:: max(1, len(runs) // 3)][:3]],
     }
-    return vlib.finish(ctx, "model_checking", cov, PIPELINE_ASSUME, fails)
+    return vlib.finish(ctx, level, cov, PIPELINE_ASSUME, fails)
 
 
 def check_C08(ctx):
@@ -439,7 +439,7 @@ def check_C02(ctx):
         "three layouts x 2 behaviour configurations, each followed by a plain All run; every run in a fresh process, death = os.Exit(7) inside the callback. "
         "evaluations = runs executed; non-trivial = histories whose fault was actually reached.",
         lambda r: r["obs"]["failed"] or r["obs"]["died"],
-        rand_n=100 if ctx.quick() else 2000)
+        rand_n=100 if ctx.quick() else 2000, level="fault_enumeration")
 
 
 def check_C06(ctx):
